@@ -253,13 +253,15 @@ Block(word, ts, i, e) ==
   ELSE IF ~IsPu(ts, i + 2, e, ";") THEN [hit |-> TRUE, ok |-> FALSE, i |-> (IF i + 2 < e THEN i + 2 ELSE e), v |-> ""]
   ELSE [hit |-> TRUE, ok |-> TRUE, i |-> i + 3, v |-> ts[i + 1].v]
 
+(* a block may state several prologues / epilogues: all are kept, in source order, one per line *)
+JoinText(a, b) == IF a = NoText THEN b ELSE a \o "\n" \o b
 RECURSIVE BackBody(_, _, _, _, _)
 BackBody(ts, i, c, pro, epi) ==
   IF i >= c THEN Ok(c + 1, [pro |-> pro, epi |-> epi], NoLo)
   ELSE LET p == Block("prologue", ts, i, c)
            q == Block("epilogue", ts, i, c)
-       IN IF p.hit THEN (IF p.ok THEN BackBody(ts, p.i, c, p.v, epi) ELSE Er(p.i, c))
-          ELSE IF q.hit THEN (IF q.ok THEN BackBody(ts, q.i, c, pro, q.v) ELSE Er(q.i, c))
+       IN IF p.hit THEN (IF p.ok THEN BackBody(ts, p.i, c, JoinText(pro, p.v), epi) ELSE Er(p.i, c))
+          ELSE IF q.hit THEN (IF q.ok THEN BackBody(ts, q.i, c, pro, JoinText(epi, q.v)) ELSE Er(q.i, c))
           ELSE Er(i, c)
 
 P_Backend(ts, m, i, e) ==     \* ts[i] = `backend`
@@ -423,12 +425,14 @@ X_Use(segs) ==      \* segs: sequence of names (each a sequence of parts)
   IN G(<<Kw("use")>> \o J(ns) \o <<Pu(";")>>, Vals(ns))
 X_BackPro(n, s) == G(<<Id("backend"), X_IdentTok(n), Id("prologue"), St(s), Pu(";")>>, GBack(n, s, NoText))
 X_BackEpi(n, s) == G(<<Id("backend"), X_IdentTok(n), Id("epilogue"), St(s), Pu(";")>>, GBack(n, NoText, s))
-(* blocks: sequence of <<"prologue" | "epilogue", text>>; a later block of a kind replaces an earlier one *)
+(* blocks: sequence of <<"prologue" | "epilogue", text>>; the texts of a kind are kept in source order, one per line *)
 X_BackBraced(n, blocks) ==
-  LET lastOf(w) == LET i == LastIdx(blocks, LAMBDA b : b[1] = w) IN IF i = 0 THEN NoText ELSE blocks[i][2]
+  LET RECURSIVE allOf(_, _, _)
+      allOf(w, i, acc) == IF i > Len(blocks) THEN acc
+                          ELSE allOf(w, i + 1, IF blocks[i][1] = w THEN JoinText(acc, blocks[i][2]) ELSE acc)
   IN G(<<Id("backend"), X_IdentTok(n), Pu("{")>> \o Flatten([i \in DOMAIN blocks |-> <<Id(blocks[i][1]), St(blocks[i][2]), Pu(";")>>])
          \o <<Pu("}")>>,
-       GBack(n, lastOf("prologue"), lastOf("epilogue")))
+       GBack(n, allOf("prologue", 1, NoText), allOf("epilogue", 1, NoText)))
 
 (* a module: inner attributes, then items in the given order; kinds: "use", "back", "ext", "eval", "def", "impl" *)
 X_Mod(attrs, items) ==     \* items: sequence of [kind, g]
